@@ -1713,7 +1713,7 @@ class CIMInstanceName(_CIMComparisonMixin, SlottedPickleMixin):
                 # Numeric CIM data types derive from Python number types.
                 value_type = 'numeric'
                 cim_type = value.cimtype
-                value = str(value)
+                value = _keybinding_number_str(value)
             elif isinstance(value, number_types):
                 value_type = 'numeric'
 
@@ -1723,7 +1723,7 @@ class CIMInstanceName(_CIMComparisonMixin, SlottedPickleMixin):
                 # to set the TYPE attribute that was introduced in DTD 2.4.
                 cim_type = None
 
-                value = str(value)
+                value = _keybinding_number_str(value)
             else:
                 # Double check the type of the keybindings, because they can be
                 # set individually.
@@ -7787,6 +7787,19 @@ class CIMQualifierDeclaration(_CIMComparisonMixin, SlottedPickleMixin):
         mof.append(';\n')
 
         return ''.join(mof)
+
+
+def _keybinding_number_str(value):
+    """
+    Return the CIM-XML string for a numeric keybinding value.
+
+    The special values of real numbers are represented as defined in DSP0201
+    (INF, -INF, NaN), like in VALUE elements.
+    """
+    if isinstance(value, float) and (value != value or
+                                     value in (float('inf'), float('-inf'))):
+        return atomic_to_cim_xml(value)
+    return str(value)
 
 
 def _embedded_object_xml(obj):
